@@ -51,6 +51,7 @@ func TestC04(t *testing.T) {
 // source, i.e. each source's projected history must be explained by its own
 // counter alone).
 func c04core(r *simkit.Run, minSources int, forceFine bool) {
+	drawSrcBase(r.T)
 	rt := r.T
 	nsrc := rapid.IntRange(minSources, 4).Draw(rt, "sources")
 	limit := rapid.IntRange(0, 5).Draw(rt, "limit")
